@@ -58,12 +58,36 @@ ScenarioHeap(sc) ==
                                  @@ 4 :> Fld(2, 1, [j \in 1 .. 6 |-> <<j>>], [j \in 1 .. 6 |-> TRUE], <<0>>, <<3, 2>>)),
                            r |-> [f |-> 3, g |-> 4]]
 
+(* further initial heaps used by C12 (rotations): every permutation of the mapping on a 3-D  *)
+(* mesh, a partial mapping, a 4-D field, a complex-free scalar field with a mask in 3-D        *)
+R4 == Reg(<<R(0), R(-1), R(2), R(-3)>>, <<R(4), R(1), R(8), R(3)>>, <<"m", "s", "K", "A">>)
+Vec4(j) == <<10 * j + 1, 10 * j + 2, 10 * j + 3, 10 * j + 4>>
+Perm3 == {<<1, 2, 3>>, <<1, 3, 2>>, <<2, 1, 3>>, <<2, 3, 1>>, <<3, 1, 2>>, <<3, 2, 1>>}
+PermName(p) == "perm" \o ToString(p[1]) \o ToString(p[2]) \o ToString(p[3])
+RotScenarioHeap(sc) ==
+   IF \E p \in Perm3 : sc = PermName(p)
+   THEN LET p == CHOOSE q \in Perm3 : sc = PermName(q) IN
+        [h |-> (1 :> R3 @@ 2 :> Sub3a @@ 3 :> Msh(1, <<2, 3, 1>>, <<2>>)
+                @@ 4 :> Fld(3, 3, [j \in 1 .. 6 |-> Vec3(j)], [j \in 1 .. 6 |-> Mask(j)], p, <<2, 3, 1>>)),
+         r |-> [f |-> 4]]
+   ELSE CASE sc = "partial3" -> [h |-> (1 :> R3 @@ 2 :> Msh(1, <<2, 3, 1>>, <<>>)
+                                        @@ 3 :> Fld(2, 2, [j \in 1 .. 6 |-> Vec2(j)], [j \in 1 .. 6 |-> Mask(j)], <<3, 1>>, <<2, 3, 1>>)),
+                                  r |-> [f |-> 3]]
+          [] sc = "field4"   -> [h |-> (1 :> R4 @@ 2 :> Msh(1, <<2, 1, 3, 2>>, <<>>)
+                                        @@ 3 :> Fld(2, 4, [j \in 1 .. 12 |-> Vec4(j)], [j \in 1 .. 12 |-> Mask(j)], <<2, 4, 1, 3>>, <<2, 1, 3, 2>>)),
+                                  r |-> [f |-> 3]]
+          [] sc = "scalar3"  -> [h |-> (1 :> R3 @@ 2 :> Sub3a @@ 3 :> Msh(1, <<2, 3, 1>>, <<2>>)
+                                        @@ 4 :> Fld(3, 1, [j \in 1 .. 6 |-> <<j>>], [j \in 1 .. 6 |-> Mask(j)], <<0>>, <<2, 3, 1>>)),
+                                  r |-> [m |-> 3, f |-> 4]]
+          [] sc = "region4"  -> [h |-> (1 :> R4), r |-> [r |-> 1]]
+          [] OTHER -> ScenarioHeap(sc)
+
 NDof(h, o) == RegND(OwnRegion(h, o))
 AxisPairs(nd) == {p \in (1 .. nd) \X (1 .. nd) : p[1] # p[2]}
 
 Init == \E sc \in Scenarios :
-          /\ heap = ScenarioHeap(sc).h
-          /\ roots = ScenarioHeap(sc).r
+          /\ heap = RotScenarioHeap(sc).h
+          /\ roots = RotScenarioHeap(sc).r
           /\ hist = <<[kind |-> "init", sc |-> sc]>>
 
 (* ---- one public call ------------------------------------------------------------------ *)
